@@ -81,6 +81,16 @@ def run(tier, seed, replay):
         nvar = 6
     else:
         cases = gather(ck, FAMILIES)
+        # `template is` with every form of data (family UD of spec/MCInstance.tla, creation only)
+        ures = vlib.tlc("MCInstance", cfg="MCInstance_UD", workers=6, timeout=900)
+        vlib.tlc_expect_ok(ures, "MCInstance UD")
+        ck.add_tlc(ures)
+        seen = set()
+        for c in ures.cases:
+            key = json.dumps([c["files"], c["data"]], sort_keys=True)
+            if key not in seen:
+                seen.add(key)
+                cases.append({"files": c["files"], "data": c["data"], "tree": c["tree"], "family": "UD"})
         nvar = 2 if tier == "quick" else 6
     records = semrun.replay(cases, rnd, nvariants=nvar)
     report_records(ck, cases, records)
